@@ -338,6 +338,9 @@ func (cc *grpcClientConn) Receive(msg any) error {
 		// We got what gRPC calls a trailers-only response, which puts the trailing
 		// metadata (including errors) into HTTP headers. validateResponse has
 		// already extracted the error.
+		if errors.Is(err, errSpecialEnvelope) {
+			err = newEndOfStreamError() // each call gets its own error value
+		}
 		cc.duplexCall.SetError(err)
 		return err
 	}
